@@ -598,3 +598,126 @@ Qed.
 
 Lemma Parses_with_ctx_clear i : Parses (with_ctx clear_cache) i i tt.
 Proof. intros c Hc. eexists _, _. split; [reflexivity|]. split; [|reflexivity]. unfold quiet, clear_cache. simpl. auto. Qed.
+
+(* ---------- until_no_match, token lists ---------- *)
+
+Lemma until_no_match_none {A} (p : P A) i : Fails p i -> Parses (until_no_match p) i i [].
+Proof.
+  intros H c Hc. unfold until_no_match. cbn [until_no_match_go]. destruct i as [|t i'].
+  - eexists _, c. repeat split.
+  - destruct (H c Hc) as (x & c1 & E & Q & e & m & ->). rewrite E. eexists _, c1. repeat split; apply Q.
+Qed.
+
+(* t1 , t2 , t3 *)
+Inductive TokList (item sep : ttype) : list tok -> list tok -> Prop :=
+| TL_one t : tty t = item -> TokList item sep [t] [t]
+| TL_cons t cm ts ids : tty t = item -> tty cm = sep -> TokList item sep ts ids -> TokList item sep (t :: cm :: ts) (t :: ids).
+
+Lemma sep_tokens_go_ok item sep : sep <> TComment -> forall ts ids, TokList item sep ts ids ->
+  forall fuel acc more, (length ids <= fuel)%nat -> nostart [sep] more ->
+  Parses (sep_tokens_go fuel item sep acc) (ts ++ more) more (rev acc ++ ids).
+Proof.
+  intros Hs ts ids H. induction H as [t Ht|t cm ts ids Ht Hcm Hrest IH]; intros fuel acc more Hf Hn c Hc;
+    (destruct fuel as [|f]; [simpl in Hf; lia|]); cbn [sep_tokens_go app].
+  - destruct (Parses_run _ _ _ _ c (exp_token_ok item t more Ht) Hc) as (c1 & E1 & Q1). rewrite E1.
+    destruct (exp_token_nostart sep more Hs Hn c1 (quiet_memo _ _ Hc Q1)) as (x & c2 & E2 & Q2 & m & ->). rewrite E2.
+    eexists _, c2. split; [reflexivity|]. split; [apply (quiet_trans _ _ _ Q1 Q2)|reflexivity].
+  - destruct (Parses_run _ _ _ _ c (exp_token_ok item t (cm :: ts ++ more) Ht) Hc) as (c1 & E1 & Q1). rewrite E1.
+    destruct (Parses_run _ _ _ _ c1 (exp_token_ok sep cm (ts ++ more) Hcm) (quiet_memo _ _ Hc Q1)) as (c2 & E2 & Q2). rewrite E2.
+    pose proof (quiet_trans _ _ _ Q1 Q2) as Q12.
+    destruct (IH f (t :: acc) more ltac:(simpl in Hf; lia) Hn c2 (quiet_memo _ _ Hc Q12)) as (z & c3 & E3 & Q3 & ->).
+    eexists _, c3. split; [exact E3|]. split; [apply (quiet_trans _ _ _ Q12 Q3)|]. simpl. rewrite <- app_assoc. reflexivity.
+Qed.
+
+Lemma TokList_len item sep ts ids : TokList item sep ts ids -> (length ids <= length ts)%nat.
+Proof. induction 1; simpl; lia. Qed.
+
+Lemma sep_tokens_ok item sep ts ids more : sep <> TComment -> TokList item sep ts ids -> nostart [sep] more ->
+  Parses (sep_tokens item sep) (ts ++ more) more ids.
+Proof.
+  intros Hs H Hn. unfold sep_tokens. apply (sep_tokens_go_ok item sep Hs ts ids H _ [] more); [|exact Hn].
+  pose proof (TokList_len _ _ _ _ H). rewrite app_length. lia.
+Qed.
+
+
+(* ---------- until_strict ---------- *)
+
+Lemma until_strict_go_chain {A} (p : P A) (stop : P tok) tail rest e : tail <> [] -> Parses stop tail rest e ->
+  forall i l, Chain p stop tail i l -> forall fuel acc, (length l < fuel)%nat ->
+  Parses (until_strict_go fuel stop p acc) i rest (rev acc ++ l, Some e).
+Proof.
+  intros Hne Hstop i l H. induction H as [|i more a l Hi Hf Hp Hc IH]; intros fuel acc Hfu c Hc0;
+    (destruct fuel as [|f]; [simpl in Hfu; lia|]); cbn [until_strict_go].
+  - destruct tail as [|t0 tl]; [congruence|].
+    destruct (Hstop c Hc0) as (x & c1 & E1 & Q1 & ->). rewrite E1.
+    eexists _, c1. split; [reflexivity|]. split; [exact Q1|]. rewrite app_nil_r. reflexivity.
+  - destruct i as [|t0 i']; [congruence|].
+    destruct (Hf c Hc0) as (x & c1 & E1 & Q1 & e1 & m1 & ->). rewrite E1.
+    destruct (Hp c1 (quiet_memo _ _ Hc0 Q1)) as (y & c2 & E2 & Q2 & ->). rewrite E2.
+    pose proof (quiet_trans _ _ _ Q1 Q2) as Q12.
+    destruct (IH f (a :: acc) ltac:(simpl in Hfu; lia) c2 (quiet_memo _ _ Hc0 Q12)) as (z & c3 & E3 & Q3 & ->).
+    eexists _, c3. split; [exact E3|]. split; [apply (quiet_trans _ _ _ Q12 Q3)|].
+    simpl. rewrite <- app_assoc. reflexivity.
+Qed.
+
+Lemma until_strict_chain {A} (p : P A) (stop : P tok) tail rest e i l : tail <> [] -> Parses stop tail rest e ->
+  Chain p stop tail i l -> (length l <= length i)%nat ->
+  Parses (until_strict stop p) i rest (l, Some e).
+Proof.
+  intros Hne Hs Hc Hl. unfold until_strict.
+  apply (until_strict_go_chain p stop tail rest e Hne Hs i l Hc (S (length i)) []). lia.
+Qed.
+
+(* picking an alternative after a prefix of failing ones *)
+Lemma alt_go_pick {A} (ps1 : list (P A)) (p : P A) ps2 i r a : Forall (fun q => Fails q i) ps1 -> Parses p i r a ->
+  forall best, Parses (alt_go (ps1 ++ p :: ps2) best) i r a.
+Proof.
+  induction 1 as [|q ps Hq Hps IH]; intros Hp best; cbn [app].
+  - apply alt_go_here. exact Hp.
+  - apply alt_go_skip; [exact Hq|]. intro b. apply IH. exact Hp.
+Qed.
+
+Lemma alt_pick {A} (ps1 : list (P A)) (p : P A) ps2 i r a : Forall (fun q => Fails q i) ps1 -> Parses p i r a ->
+  Parses (alt (ps1 ++ p :: ps2)) i r a.
+Proof. intros. unfold alt. apply alt_go_pick; assumption. Qed.
+
+(* parse_until_no_match: items as long as the item parser succeeds *)
+Lemma until_no_match_go_chain {A} (p : P A) stop tail : Fails p tail ->
+  forall i l, Chain p stop tail i l -> forall fuel acc, (length l < fuel)%nat ->
+  Parses (until_no_match_go fuel p acc) i tail (rev acc ++ l).
+Proof.
+  intros Hfail i l H. induction H as [|i more a l Hi Hf Hp Hc IH]; intros fuel acc Hfu c Hc0;
+    (destruct fuel as [|f]; [simpl in Hfu; lia|]); cbn [until_no_match_go].
+  - destruct tail as [|t0 tl].
+    + eexists _, c. split; [reflexivity|]. split; [apply quiet_refl|]. rewrite app_nil_r. reflexivity.
+    + destruct (Hfail c Hc0) as (x & c1 & E1 & Q1 & e1 & m1 & ->). rewrite E1.
+      eexists _, c1. split; [reflexivity|]. split; [exact Q1|]. rewrite app_nil_r. reflexivity.
+  - destruct i as [|t0 i']; [congruence|].
+    destruct (Hp c Hc0) as (y & c2 & E2 & Q2 & ->). rewrite E2.
+    destruct (IH f (a :: acc) ltac:(simpl in Hfu; lia) c2 (quiet_memo _ _ Hc0 Q2)) as (z & c3 & E3 & Q3 & ->).
+    eexists _, c3. split; [exact E3|]. split; [apply (quiet_trans _ _ _ Q2 Q3)|].
+    simpl. rewrite <- app_assoc. reflexivity.
+Qed.
+
+Lemma until_no_match_chain {A} (p : P A) stop tail i l : Fails p tail -> Chain p stop tail i l ->
+  (length l <= length i)%nat -> Parses (until_no_match p) i tail l.
+Proof.
+  intros Hf Hc Hl. unfold until_no_match. apply (until_no_match_go_chain p stop tail Hf i l Hc (S (length i)) []). lia.
+Qed.
+
+Lemma Fails_fail {A} m i : Fails (@fail A m) i.
+Proof. eapply FailsAt_Fails. apply FailsAt_fail. Qed.
+
+(* the head of a ++ b *)
+Lemma nostart_app_first X S (a b : input) : (forall t r, a = t :: r -> In (tty t) S) -> disj_b S (TComment :: X) = true ->
+  nostart X b -> nostart X (a ++ b).
+Proof.
+  intros Ha Hd Hb. destruct a as [|t r]; [exact Hb|]. cbn [app]. eapply starts_nostart; [apply (Ha t r eq_refl)|exact Hd].
+Qed.
+
+Lemma first_excl_gen (L : list ttype) ty t r : tty t = ty -> ty <> TComment ->
+  nostart (filter (fun x => negb (tt_eqb x ty)) L) (t :: r).
+Proof.
+  intros H Hc ty' Hh Hin. apply filter_In in Hin as [Hin Hne].
+  rewrite hd_ty_cons in Hh by congruence. inversion Hh; subst. rewrite tt_eqb_refl in Hne. discriminate.
+Qed.
